@@ -26,13 +26,13 @@ def run(ctx):
     chk.technique = "MIR panic-site inventory + dominance-based guard recognition from the parser entry points; SCC recursion check; loop-form classification"
     chk.analysed = ctx.analysed_summary()
     roots, missing, per = parser_roots(ctx)
-    r0 = chk.rule("anchors", "every parsing entry point named by the property exists (frozen table tables/parser_roots.json)", floor=45)
+    r0 = chk.rule("anchors", "every parsing entry point named by the property exists (frozen table tables/parser_roots.json)", floor=25)
     for r, m in per:
         for x in m:
             r0.instance({"format": r["format"], "root": x})
     for r, m in missing:
         r0.violate("C20|anchors|%s" % r["pattern"][:60], "parser entry point pattern %r matches %d function(s), expected at least %d (anchor missing; fail closed)" % (r["pattern"], len(m), r["min"]))
-    rp, seen, inv = panic_rule(ctx, chk, "C20", "P-no-reachable-panic", roots, floor=200)
+    rp, seen, inv = panic_rule(ctx, chk, "C20", "P-no-reachable-panic", roots, floor=60)
     chk.analysed["reachable_functions"] = len([n for n in seen if n in F.fns])
     recursion_rule(ctx, chk, "C20", "S-no-recursion", seen)
     loops.loop_rule(ctx, chk, "C20", "T-loops-terminate", seen)
